@@ -17,7 +17,8 @@ LEVEL_TEXT = ('Generated Linen module programs (<= 30 draws; params, noise strea
               'calls, default-fallback, split_rngs (int and tuple splits, only-filters) + restore, fork and reseed are checked against '
               'fold_in(seed key, count) and for never replaying a key.'
               ' Further streams: keys inside nn.jit across applies, flag toggling within one process, scopes lifted'
-              ' together with a transformed module (attribute sub-modules, repeated uses, function-style lifts).')
+              ' together with a transformed module (attribute sub-modules, repeated uses, function-style lifts), random push / draw / lift'
+              ' programs on bare flax.core Scopes (lifts of a subset of the streams), Rngs handed to nnx.scan / nnx.vmap (split recipe or broadcast).')
 LEVEL_NOTE = ('With flax_fix_rng_separator off, path-concatenation collisions are expected: only the count / stream-seed / sibling-name '
               'distinctness clauses are asserted there. The 32-bit truncation of the path hash can collide by chance (p < 1e-6 per run at '
               'these sizes); such a collision is reported as inconclusive when the full SHA-1 digests differ.')
@@ -54,7 +55,7 @@ class DrawLog:
     orig_call = rnglib.RngStream.__call__
 
     def stream_call(self_stream):
-      cnt = np.asarray(self_stream.count.value).copy()
+      cnt = np.asarray(self_stream.count.value).copy() if log.active else None
       key = orig_call(self_stream)
       if log.active:
         ctx.event('hook.rngstream_call')
@@ -582,8 +583,164 @@ def run_lifted_attr_modules(ctx, i, rng):
     ctx.check(np.array_equal(out, out2), 'determinism:lifted_attr_modules', lambda: dict(case=desc))
 
 
+# ---------------------------------------------------------------------------------------------
+# functional core: child scopes pushed inside / outside lifted functions that lift a subset of the streams
+
+
+def core_program(rng, depth, streams, inside=None):
+  """ops: ('draw', stream) | ('push', name, ops) | ('lift', kind, subset, ops). Inside a lift only lifted streams are drawn."""
+  ops = []
+  avail = list(inside if inside is not None else streams)
+  for _ in range(rng.randrange(2, 5)):
+    r = rng.random()
+    if r < 0.45 or depth >= 3:
+      ops.append(('draw', rng.choice(avail)))
+    elif r < 0.75:
+      ops.append(('push', rng.choice(['c', 'c', 'd']), core_program(rng, depth + 1, streams, inside)))
+    elif inside is None:
+      subset = tuple(sorted(rng.sample(streams, rng.randrange(1, len(streams) + 1))))
+      ops.append(('lift', rng.choice(['vmap_split', 'vmap_bcast', 'remat', 'jit']), subset, core_program(rng, depth + 1, streams, subset)))
+    else:
+      ops.append(('draw', rng.choice(avail)))
+  return ops
+
+
+def core_exec(scope, ops, plain):
+  """Runs the ops on a flax.core Scope; returns a list of (kind, key_data array) in program order."""
+  import jax
+  import jax.numpy as jnp
+  from flax.core import lift
+  out = []
+  for op in ops:
+    if op[0] == 'draw':
+      out.append(('draw', jax.random.key_data(scope.make_rng(op[1]))[None]))
+    elif op[0] == 'push':
+      out.extend(core_exec(scope.push(op[1], reuse=True), op[2], plain))
+    else:
+      _, kind, subset, sub = op
+
+      def body(s, x, sub=sub):
+        return jnp.concatenate([a for _, a in core_exec(s, sub, plain)])
+
+      x = jnp.zeros(())
+      if plain and kind != 'vmap_split':
+        out.append(('lifted', body(scope, x)))
+      elif kind in ('vmap_split', 'vmap_bcast'):
+        f = lift.vmap(body, variable_axes={}, split_rngs={n: kind == 'vmap_split' for n in subset}, in_axes=None, out_axes=0, axis_size=2)
+        ys = f(scope, x)
+        out.append(('lanes', ys) if kind == 'vmap_split' else ('bcast', ys))
+      elif kind == 'remat':
+        out.append(('lifted', lift.checkpoint(body, variables=True, rngs=list(subset))(scope, x)))
+      else:
+        # (core lift.jit takes a hashable key as first argument: it identifies the lifted program for the trace and side-effect
+        # caches - Linen passes the module fingerprint - and is handed on to the function)
+        out.append(('lifted', lift.jit(lambda s, hk, x: body(s, x), variables=True, rngs=list(subset))(scope, ('prog', repr(sub), subset), x)))
+  return out
+
+
+def run_core_scope(ctx, i, rng):
+  """flax.core Scopes driven directly (what Linen modules are built on): children pushed by name - first inside a lifted function that
+  lifts only some streams, again outside it, or the other way round - always hand out a key; the keys are pairwise distinct, the same
+  on a second run, and remat / jit / broadcasting vmap around a sub-program change no key at all."""
+  import jax
+  import jax.numpy as jnp
+  from flax.core import apply
+  streams = ['params', 'dropout', 'noise'][:2 + i % 2]
+  ops = core_program(rng, 0, streams)
+  n_lift = sum(1 for o in _walk_ops(ops) if o[0] == 'lift')
+  desc = dict(program=repr(ops), streams=streams)
+  with ctx.case('core.scope', i, desc, nontrivial=n_lift >= 1):
+    rngs = {n: jax.random.key(7 * i + k) for k, n in enumerate(streams)}
+
+    def go(plain):
+      def fn(scope):
+        return [(k, a) for k, a in core_exec(scope, ops, plain)]
+      return [(k, np.asarray(a)) for k, a in apply(fn)({}, rngs=rngs)]
+
+    a, b, p = go(False), go(False), go(True)
+    ctx.op('flax.core.Scope.push/make_rng under lift')
+    ctx.check(len(a) == len(b) and all(np.array_equal(x[1], y[1]) for x, y in zip(a, b)), 'determinism:core_scope_second_run', lambda: dict(case=desc))
+    rows = []
+    for kind, arr in a:
+      if kind == 'bcast':
+        ctx.check(np.array_equal(arr[0], arr[1]), 'core:broadcast_stream_differs_between_lanes', lambda: dict(case=desc))
+        arr = arr[0]
+      rows.extend(r.tobytes() for r in arr.reshape((-1, 2)))
+    ctx.check(len(set(rows)) == len(rows), 'injective:same_key_at_two_positions:core_scope', lambda: dict(case=desc, draws=len(rows), distinct=len(set(rows))))
+    # frame: the draws made OUTSIDE the lifted sub-programs are at the same (path, stream, count) positions whether those sub-programs
+    # run lifted or in place (what a lift hands out inside is its own business: lift.jit pre-folds the path, vmap splits)
+    for (ka, xa), (kp, xp) in zip(a, p):
+      if ka == 'draw':
+        ctx.check(np.array_equal(xa, xp), 'frame:lift_changes_key_outside:core_scope', lambda: dict(case=desc))
+
+
+def _walk_ops(ops):
+  for o in ops:
+    yield o
+    if o[0] in ('push', 'lift'):
+      yield from _walk_ops(o[-1])
+
+
+def run_nnx_transform_rngs(ctx, i, rng):
+  """An nnx.Rngs object handed to nnx.scan / nnx.vmap: with the documented split_rngs recipe, or as a broadcast argument
+  (in_axes=None). Keys drawn inside and after the transform: the draws of one lane / step and all draws outside are pairwise
+  distinct and the stream resumes after the transform without handing out a key again."""
+  import jax
+  import jax.numpy as jnp
+  from flax import nnx
+  tr = ['scan', 'vmap'][i % 2]
+  how = ['split', 'broadcast'][(i // 2) % 2]
+  n_in = 1 + (i // 4) % 2
+  n_pre = (i // 8) % 3
+  length = 2 + (i // 3) % 2
+  desc = dict(transform=tr, rngs=how, draws_inside=n_in, draws_before=n_pre, length=length)
+  with ctx.case('nnx.transform_rngs', i, desc, nontrivial=True):
+    r = nnx.Rngs(100 + i)
+    kd = lambda k: np.asarray(jax.random.key_data(k))
+    before = [kd(r.default()) for _ in range(n_pre)]
+
+    def body_keys(rr):
+      return jnp.stack([jax.random.key_data(rr.default()) for _ in range(n_in)])
+
+    if tr == 'scan':
+      def run(rr):
+        ax = 0 if how == 'split' else None
+        @nnx.scan(in_axes=(nnx.Carry, ax), out_axes=(nnx.Carry, 0), length=length)
+        def f(c, rr):
+          return c, body_keys(rr)
+        return f(0, rr)[1]
+    else:
+      def run(rr):
+        ax = 0 if how == 'split' else None
+        return nnx.vmap(body_keys, in_axes=(ax,), out_axes=0, axis_size=length)(rr)
+    if how == 'split':
+      with nnx.split_rngs(r, splits=length):
+        inside = np.asarray(run(r))
+    else:
+      inside = np.asarray(run(r))
+    after = [kd(r.default()) for _ in range(2)]
+    ctx.op('nnx.%s(Rngs %s)' % (tr, how))
+    ctx.event('oracle:nnx.no_replay')
+    outside = [k.tobytes() for k in before + after]
+    lanes = [[k.tobytes() for k in lane] for lane in inside]
+    ctx.check(len(set(outside)) == len(outside), 'nnx.no_replay:outside_transform', lambda: dict(case=desc))
+    for lane in lanes:
+      ctx.check(len(set(lane)) == len(lane), 'nnx.no_replay:within_lane', lambda: dict(case=desc))
+    flat = [k for lane in lanes for k in lane]
+    if tr == 'scan' or how == 'split':
+      # scan steps happen one after the other on ONE stream (eager loop: every step draws a new key); split lanes have own keys
+      ctx.check(len(set(flat)) == len(flat), 'nnx.no_replay:broadcast_rngs_same_key_every_step:%s' % tr if how == 'broadcast' else 'nnx.no_replay:split_lanes_share_key',
+                lambda: dict(case=desc, draws=len(flat), distinct=len(set(flat))))
+    ctx.check(not (set(flat) & set(outside)), 'nnx.no_replay:broadcast_rngs_key_replayed_after:%s' % tr if how == 'broadcast' else 'nnx.no_replay:key_replayed_after_split',
+              lambda: dict(case=desc, replayed=len(set(flat) & set(outside))))
+
+
 def run(ctx):
   log = DrawLog(ctx)
+  for i in ctx.indices(48, 'nnx.transform_rngs'):
+    run_nnx_transform_rngs(ctx, i, ctx.rng('nnx.transform_rngs', i))
+  for i in ctx.indices(60 if ctx.tier == 'quick' else 600, 'core.scope'):
+    run_core_scope(ctx, i, ctx.rng('core.scope', i))
   for i in ctx.indices(48 if ctx.tier == 'quick' else 96, 'linen.lifted_attr'):
     run_lifted_attr_modules(ctx, i, ctx.rng('lifted_attr', i))
   for i in ctx.indices(18 if ctx.tier == 'quick' else 120, 'linen.jit'):
